@@ -2,6 +2,7 @@ import Otel.Base.Wire
 import Otel.C01.Sched
 import Otel.C01.Spec
 import Otel.C01.History
+import Otel.C01.Stuck
 open Otel Otel.Wire Otel.C01
 
 /-! Line kinds
@@ -11,7 +12,9 @@ open Otel Otel.Wire Otel.C01
    obs: `L=<b1/b2/…>;X=<0|1>;F=<fid>:<p|o|e>,…;S=<n | one of p|o|e per Shutdown call, in call order>;D=<dropped>;Q=<len(queue)>;E=<ids whose OnEnd returned>`
         batches/ids as dot-separated lists, `-` when empty; `H` = number of exporter Shutdown calls so far
 `hist <gen> <cap> <maxB> <blocking> <dropped> | <ev> <ev> … => -`      free-running history (oracle only)
-   evs: `E<id>` `U<id>` `XS:<ids>` `XE` `FC<fid>` `FR<fid>+|-` `SC` `SR+|-` `DS` `DE`
+   evs: `E<id>` `U<id>` `XS:<ids>` `XE` `FC<fid>` `FR<fid>+|-` `SC` `SR+|-` `DS` `DE`; watchdog: `HS` (a Shutdown call did not return),
+        `HF<fid>+|-` (ForceFlush fid did not return; + = the queue was seen full), `HE<id>+|-` (the End of span id, accepted, did not
+        return), `HANG` (older recordings: some ForceFlush or Shutdown call did not return)
 -/
 
 def dropS (s : String) (n : Nat) : String := (s.drop n).toString
@@ -143,6 +146,9 @@ def schedOracle (maxB : Nat) (blocking : Bool) (lateIds : List Nat) (ops : List 
 def parseEv (t : String) : Option Spec.Ev :=
   if t == "XE" then some .exportEnd
   else if t == "HANG" then some .hang
+  else if t == "HS" then some .hangSd
+  else if t.startsWith "HF" then (dropR (dropS t 2) 1).toNat?.map (.hangFF · (t.endsWith "+"))
+  else if t.startsWith "HE" then (dropR (dropS t 2) 1).toNat?.map (.hangEnd · (t.endsWith "+"))
   else if t == "SC" then some .sdCalled
   else if t == "SR+" then some (.sdReturned true)
   else if t == "SR-" then some (.sdReturned false)
@@ -178,7 +184,19 @@ def stepLine (_ : Unit) (toks : List String) : Unit × Option Verdict :=
       let f22model := final.ffs.any (fun f => f.ph == .retEarly)
       -- F41 likewise only when the late-span race has happened in the model (`LateEnd_applies`, History.lean)
       let f41model := LateEnd_applies final
+      -- F42: a ForceFlush / blocked End that is still pending at the end of the script is the known finding only if that
+      -- very caller is stuck in the model's final state (`StuckFF` / `StuckEnd`, Stuck.lean: worker done, queue full,
+      -- the caller at its send) and the last observation shows it pending; a call that is pending although the model
+      -- says it returned is a DIFF (the runner accepts a KNOWN verdict only when implementation and model agree)
+      let lastObs := obs.getLast?.getD ""
+      let lastFF := parseFF ((field lastObs "F").getD "-")
+      let lastE := ((field lastObs "E").bind parseDot).getD []
+      let stuckFFs := (final.ffs.filter fun f => StuckFF final f.fid).map (·.fid)
+      let stuckEnds := final.inflight.filter fun id => StuckEnd final id
+      let f42 := StuckProducer_applies final &&
+        stuckFFs.all (fun fid => lastFF.lookup fid == some "p") && stuckEnds.all (fun id => !lastE.contains id)
       let spec := if !bad.isEmpty then "FAIL"
+        else if f42 then "KNOWN:F42"
         else if f41 && f41model then "KNOWN:F41" else if f41 then "FAIL:F41-not-in-model"
         else if f22 && f22model then "KNOWN:F22" else if f22 then "FAIL" else "ok"
       let br := (if final.droppedIds.isEmpty then [] else ["drop"]) ++
@@ -191,6 +209,7 @@ def stepLine (_ : Unit) (toks : List String) : Unit × Option Verdict :=
         (if final.sds.any (·.ret) then ["sd-late-ok"] else []) ++
         (if final.unsampled.isEmpty then [] else ["unsampled"]) ++
         (if f41model then ["late-end"] else []) ++
+        (if stuckFFs.isEmpty then [] else ["stuck-ff"]) ++ (if stuckEnds.isEmpty then [] else ["stuck-end"]) ++
         (if final.w == .exited then ["exited"] else []) ++
         (if vv != 0 then [s!"variant{vv}"] else [])
       ((), some { agree := agreeV.isSome, spec := spec ++ (if bad.isEmpty then "" else ":" ++ ",".intercalate bad),
@@ -208,12 +227,17 @@ def stepLine (_ : Unit) (toks : List String) : Unit × Option Verdict :=
       -- F41: a later Shutdown call returned nil with spans of its own pre set missing while everything ended before the
       -- FIRST `sdCalled` is delivered (`hist_f41_never_hides_first_call_loss`); theorem `bsp_model_history_f41_only_late`
       let f41 := Spec.histF41 blocking dropped evs
-      let spec := if !bad.isEmpty then "FAIL" else if f41 then "KNOWN:F41" else if f22 then "KNOWN:F22" else "ok"
+      -- hung ForceFlush / End calls: F42 if the exporter had been shut down and the queue was seen full (`Spec.histHangs`),
+      -- else the failure "hang"
+      let (hbad, f42) := Spec.histHangs blocking evs
+      let bad := bad ++ hbad
+      let spec := if !bad.isEmpty then "FAIL" else if f42 then "KNOWN:F42" else if f41 then "KNOWN:F41"
+        else if f22 then "KNOWN:F22" else "ok"
       let nExp := (evs.filter fun | .exportStart _ => true | _ => false).length
       let br := (if dropped > 0 then ["drop"] else []) ++ (if nExp ≥ 2 then ["multi-export"] else []) ++
         (if evs.any (fun | .ffReturned _ true => true | _ => false) then ["ff-ok"] else []) ++
         (if evs.any (fun | .sdReturned true => true | _ => false) then ["sd-ok"] else []) ++
-        (if f22 then ["f22"] else []) ++ (if f41 then ["f41"] else [])
+        (if f22 then ["f22"] else []) ++ (if f41 then ["f41"] else []) ++ (if f42 then ["f42"] else [])
       ((), some { agree := true, spec := spec ++ (if bad.isEmpty then "" else ":" ++ ",".intercalate bad),
                   nontrivial := nExp ≥ 1, branches := if br.isEmpty then "-" else ",".intercalate br,
                   model := "-" })
